@@ -638,7 +638,10 @@ static bool judgeAssembler(Ctx& c, AsmRun& R, Assembler& A, const std::string& a
     // ---- 5. bounds
     if (!P.bounds.empty()) {
         double w = 0; boundsOK(S, P, qI, &w);
-        c.check("asm-bounds:" + apiK + (e.nErr > 0 ? ":ipopt" : ":lbfgsb"), std::max(w, 0.0), 0.0, [&] {
+        // attribute: a start outside its range that is handed back untouched (short circuit / revert) vs an optimizer result
+        bool untouched = false;
+        for (auto& b : P.bounds) { int ix = S.q0(b.node) + b.qi; if (!P.fixedQ[ix] && !P.prescQ[ix] && (qI[ix] < b.lo || qI[ix] > b.hi) && bitEq(qI[ix], qBeforeI[ix])) untouched = true; }
+        c.check("asm-bounds:" + apiK + (untouched ? ":start-outside-range-returned-unchanged" : e.nErr > 0 ? ":ipopt" : ":lbfgsb"), std::max(w, 0.0), 0.0, [&] {
             Json bj = Json::arr();
             for (auto& b : P.bounds) { int ix = S.q0(b.node) + b.qi; bj.push(Json::obj().set("qIndex", ix).set("lo", b.lo).set("hi", b.hi).set("q", qI[ix]).set("qBefore", qBeforeI[ix]).set("fixed", (int)P.fixedQ[ix]).set("presc", (int)P.prescQ[ix])); }
             return W(&e).set("excess", w).set("bounds", bj).set("swallowedThrows", throwsDuringCall).set("lastThrow", std::string(g_lastThrow)); });
